@@ -199,8 +199,12 @@ class History:
             w.run_until(w.quiescent, max_iter=3000)
         except TimeoutError:
             pass
-        if not w.quiescent() or w.errors:
-            self.fails.append(('harness', f'phase {phase}: not quiescent / task error {w.errors[:1]}'))
+        if w.errors:
+            name, exc = w.errors[0]
+            self.fails.append(('task_died', f'phase {phase}: the server task "{name}" ended with {exc!r}'))
+            return
+        if not w.quiescent():
+            self.fails.append(('harness', f'phase {phase}: not quiescent'))
             return
         if 'converge' in self.want:
             for si, s in enumerate(w.sessions):
@@ -558,6 +562,69 @@ def scenario_refresh_spans_block(res, seed, variant):
     return fails, h
 
 
+def scenario_query_unflushed_height(res, seed, variant):
+    """Corpus scenario: after a reorganisation, by-height queries (id_from_pos, merkle) for the heights
+    of the new branch arrive while its blocks have been advanced in memory but not yet flushed (the
+    window between advance_blocks and the flush of on_caught_up); nothing read in that window may be
+    served once the server is quiescent (C10), and every proof must verify (C11)."""
+    h = History(res, seed, 40_000 + variant, 'quick', {'queries', 'proofs'}, limit=8)
+    w, d = h.world, h.daemon
+    fails = []
+    try:
+        w.build()
+        w.start()
+        w.run_until(lambda: w.serving)
+        while d.tip.height < 6:
+            d.extend(1, max_txs=4)
+        # the block that will be replaced has several transactions; its replacement has fewer
+        d.switch(h.gen.new_block(d.tip, max_txs=6, min_txs=4))
+        d.extend(1, max_txs=2)
+        for _ in range(8):
+            w.settle(2)
+            if w.quiescent():
+                break
+        s = w.new_session()
+        wrap_transport(s, w)
+        rh = d.tip.height - 1
+        h.client(0, 'blockchain.transaction.id_from_pos', [rh, 1, False], ('q',))
+        w.settle(1)
+        b = d.tip.chain()[rh - 1]
+        b = h.gen.new_block(b, max_txs=1 + variant, min_txs=1)
+        for _ in range(2):
+            b = h.gen.new_block(b, max_txs=2)
+        d.switch(b)
+        h.log(f'daemon reorg depth 2 -> height {b.height}; block {rh} now has {len(b.chain()[rh].txs)} txs')
+        prev_hook = w.loop.on_iteration
+        fired = []
+
+        def hook(loop):
+            prev_hook(loop)
+            if w.bp.state.height > w.db.state.height and w.bp.state.height >= rh and len(fired) < 6:
+                # advanced but not flushed
+                for pos in (0, 1):
+                    h.client(0, 'blockchain.transaction.id_from_pos', [rh, pos, bool(len(fired) % 2)], ('q',))
+                fired.append(loop.iterations)
+        w.loop.on_iteration = hook
+        for _ in range(10):
+            w.settle(2)
+            if w.quiescent():
+                break
+        w.loop.on_iteration = prev_hook
+        if not fired:
+            fails.append(('harness', 'no query was issued in the advanced-but-unflushed window'))
+        res.bump('query_unflushed_height_scenarios')
+        res.bump('queries_in_unflushed_window', 2 * len(fired))
+        h.judge('query-unflushed-height')
+        fails += h.fails
+    finally:
+        try:
+            w.stop()
+        except Exception as e:   # noqa
+            fails.append(('harness', f'stop failed: {e!r}'))
+        w.destroy()
+    return fails, h
+
+
 def scenario_tx_cache_race(res, seed, variant):
     """Corpus scenario: a transaction-merkle request for a block of >= 200 transactions (the
     MerkleCache path of `_merkle_branch`) whose tx-hash read from the DB is in flight while a
@@ -651,6 +718,8 @@ def _run(tier, seed, want, name):
         scenarios += [('header_cache_race', scenario_header_cache_race), ('tx_cache_race', scenario_tx_cache_race)]
     if 'converge' in want:
         scenarios += [('refresh_spans_block', scenario_refresh_spans_block)]
+    if 'queries' in want:
+        scenarios += [('query_unflushed_height', scenario_query_unflushed_height)]
     if scenarios:
         for scen, fn in scenarios:
             for variant in (0, 1):
@@ -661,7 +730,7 @@ def _run(tier, seed, want, name):
                         res.harness_errors.append(f'{scen} {variant}: {f[1]}')
                 real = [f for f in fails if f[0] != 'harness']
                 if real:
-                    res.violations.append({'suite': name, 'clause': real[0][0], 'detail': real[0][1], 'seed': seed,
+                    res.violations.append({'suite': name, 'clause': real[0][0], 'tags': sorted({c for c, _d in real}), 'detail': real[0][1], 'seed': seed,
                                            'scenario': [scen, variant], 'events': h.events[-20:],
                                            'all_failures': [f'{c}: {d}' for c, d in real[:6]]})
     for idx in range(n):
@@ -676,7 +745,7 @@ def _run(tier, seed, want, name):
             if f[0] == 'harness':
                 res.harness_errors.append(f'history {idx} (seed {seed}): {f[1]}')
         if real:
-            res.violations.append({'suite': name, 'clause': real[0][0], 'detail': real[0][1],
+            res.violations.append({'suite': name, 'clause': real[0][0], 'tags': sorted({c for c, _d in real}), 'detail': real[0][1],
                                    'seed': seed, 'history': idx, 'want': sorted(want), 'events': h.events[-60:],
                                    'all_failures': [f'{c}: {d}' for c, d in real[:6]]})
             if len(res.violations) >= 3:
@@ -705,7 +774,8 @@ def replay(case):
     res = SuiteResult('system')
     if case.get('scenario'):
         fn = {'header_cache_race': scenario_header_cache_race, 'tx_cache_race': scenario_tx_cache_race,
-              'refresh_spans_block': scenario_refresh_spans_block}[case['scenario'][0]]
+              'refresh_spans_block': scenario_refresh_spans_block,
+              'query_unflushed_height': scenario_query_unflushed_height}[case['scenario'][0]]
         fails, _h = fn(res, case['seed'], case['scenario'][1])
         return [f'{c}: {d}' for c, d in fails if c != 'harness']
     h = History(res, case['seed'], case['history'], 'quick', want)
